@@ -52,6 +52,14 @@ def relu(x=0, item=None):
   return targets.Rec('relu', [('x', x), ('item', item)], (), {})
 
 
+def make_layer(item=None, units=4) -> Layer:
+  """A function (not a class) whose return annotation is a class."""
+  return Layer(item=item, units=units)
+
+
+make_layer.__annotations__['return'] = Layer     # a real class object (this module postpones annotations)
+
+
 def leaf(r, exotic=True):
   x = r.random()
   if not exotic or x < 0.45:
@@ -70,7 +78,7 @@ def leaf(r, exotic=True):
     return r.choice([(1, 's'), (), ((1, 2), 3)])
   if x < 0.94:
     return r.choice([graphs.NT(2, 1), Names((1, 2))])
-  return {r.choice([(1, 2), 'k', 3, frozenset([1])]): 1}
+  return {r.choice([(1, 2), 'k', 3, frozenset([1]), Hue.WARM, Prio.HIGH]): 1}
 
 
 class Gen:
@@ -103,14 +111,17 @@ class Gen:
     r = self.r
     btypes = [fdl.Config, fdl.Config, fdl.Partial] + ([fdl.ArgFactory] if in_partial else [])
     btype = r.choice(btypes)
-    fn = r.choice([Model, Layer, relu])
-    names = {Model: ['enc', 'dec', 'width', 'name', 'opts'], Layer: ['item', 'units', 'act'], relu: ['x', 'item']}[fn]
+    fn = r.choice([Model, Layer, relu, Model, Layer, relu, make_layer])
+    names = {Model: ['enc', 'dec', 'width', 'name', 'opts'], Layer: ['item', 'units', 'act'], relu: ['x', 'item'],
+             make_layer: ['item', 'units']}[fn]
     kw = {n: self.value(depth, in_partial or btype is fdl.Partial) for n in names if r.random() < 0.55}
     c = btype(fn, **kw)
     if self.tags:
       for n in list(kw)[:2]:
         if r.random() < 0.25:
           fdl.add_tag(c, n, r.choice(targets.TAGS))      # tagged arguments all have values
+          if r.random() < 0.3:
+            fdl.add_tag(c, n, r.choice(targets.TAGS))    # several tags on one argument
     self.pool.append(c)
     return c
 
@@ -258,6 +269,7 @@ def execute(case):
       if isinstance(_v, fdl.ArgFactory):
         _refs[id(_v)] = _refs.get(id(_v), 0) + 1
   obs['shared_argfactory'] = any(c > 1 for c in _refs.values())
+  obs['enum_dict_key'] = contains(cfg, lambda x: isinstance(x, dict) and any(isinstance(k, enum.Enum) for k in x))
   try:
     if case['generator'] == 'new':
       code = new_codegen.new_codegen(cfg, sub_fixtures=subs, max_expression_complexity=case['complexity'],
@@ -362,6 +374,11 @@ def oracle(case, real):
       elif (real['generator'] == 'auto' and real.get('run', '').startswith('raised ValueError')
             and 'arg_factory argument' in real['run'] and real['has_tags']):
         f['class'] = 'autocg-tagged-argfactory'
+    if 'class' not in f and real.get('run', '').startswith('raised NameError'):
+      if real['generator'] == 'new' and "name 'Any' is not defined" in real['run']:
+        f['class'] = 'newcg-any-not-imported'
+      elif real.get('enum_dict_key') and "is not defined" in real['run']:
+        f['class'] = 'codegen-enum-dict-key'
     if 'class' not in f and real['generator'] == 'auto' and real.get('same') is False \
         and real.get('shared_argfactory'):
       from harness.props import C20 as _c20b
